@@ -15,7 +15,10 @@ RULE = ("one case = a history of create / hand-made recording / fill / save / re
         "key texts with quotes, unicode, separators, JSON metacharacters; values from the faithful-domain generator "
         "(tuples, bytes, nested containers, objects, class references, big ints, floats); every saved id is fetched again "
         "at the end of the history (after the later saves of other ids); streams: main, reserved-key probe (F07b), "
-        "shared-sub-object probe (F07c), file-path collision (hand-made ids, observation); non-trivial = at least one "
+        "shared-sub-object probe (F07c), file-path collision (hand-made ids, observation), asked-early (an id is asked for - "
+        "full and metadata-only - before its recording is created / filled / saved and again after the save, through the "
+        "saving cassette object or through a second object over the same directory / bucket + prefix that lives for the "
+        "whole history: 6 deterministic probes + a random stream); non-trivial = at least one "
         "successful save of a non-empty recording that is fetched afterwards; distinct = distinct case")
 ASSUMPTIONS = ["json.loads(json.dumps(j)) == j on the well-formed JSON trees jwf that the serializer produces (premise of the "
                "oracle-parametric theorems, restricted to jwf because no function satisfies it on all json terms; a THEOREM "
@@ -28,6 +31,8 @@ ASSUMPTIONS = ["json.loads(json.dumps(j)) == j on the well-formed JSON trees jwf
                "uuid1().hex has no '_' and no '/' (32 hex digits); replaced by a deterministic fake",
                "recording ids are non-empty, contain no NUL and give file names shorter than the OS limit"]
 TRUSTED = ["fake bucket behind the real S3BasicFacade; scratch directory for the file cassette",
+           "a second cassette object over the same store is modelled as the same store (the models keep no per-object state: "
+           "a cassette object that remembers earlier answers disagrees with them)",
            "pyval is tree shaped: sharing (py/id references) is covered by the direct predicate only, not by the model"]
 
 CATS = ["Op", "OpX", "a_b", "svc.Op", "é"]
@@ -145,33 +150,54 @@ def gen_case(rng, tier, stream, kind):
             data.append(["bad", {"t": "unser", "v": 1}])
         return dict(op="fill", slot=slot, data=data, meta=meta, reset=reset)
 
+    early = stream == "early"
+
+    def via():
+        """which cassette object asks: the one that saves, or a second one over the same store (a reader polling while a
+        writer saves; for the in-memory cassette, whose store is the object itself, the same object)"""
+        return rng.choice(["writer", "reader"]) if early else "writer"
+
+    def ask(rid, p):
+        # stream "early": the id is asked for BEFORE it is saved (the answer then: no such recording) - the later save
+        # and fetch must not be affected by what was answered earlier
+        while early and rng.random() < p:
+            ops.append(dict(op=rng.choice(["get", "get_meta"]), id=rid, via=via()))
+            p *= 0.5
+
     for _ in range(n_rec):
         slot = nslots
         nslots += 1
         if stream == "collision":
             rid = ["a/b_c", "a_b/c", "a/b/c", "a_b_c"][slot % 4]
-            ops.append(dict(op="mk", slot=slot, id=rid))
+            mk = dict(op="mk", slot=slot, id=rid)
         elif rng.random() < 0.6:
             cat = rng.choice(CATS)
             nuuid += 1
             rid = ("%s/20200227/%032x" if kind == "s3" else "%s/%032x") % (cat, nuuid)
-            ops.append(dict(op="create", slot=slot, cat=cat))
+            mk = dict(op="create", slot=slot, cat=cat)
         else:
             rid = rng.choice(HAND_IDS)
-            ops.append(dict(op="mk", slot=slot, id=rid))
+            mk = dict(op="mk", slot=slot, id=rid)
+        ask(rid, 0.4)                      # before the recording object even exists (the id is predictable)
+        ops.append(mk)
         slot_ids[slot] = rid
+        ask(rid, 0.5)
         ops.append(new_fill(slot, False))
+        ask(rid, 0.5)
         ops.append(dict(op="save", slot=slot))
         ids.append(rid)
+        if early and rng.random() < 0.7:
+            ops.append(dict(op=rng.choice(["get", "get_meta"]), id=rid, via=via()))
         # interleave reads, scribbles, re-saves
         for _ in range(rng.randrange(0, 4)):
             r = rng.random()
             if r < 0.35:
-                ops.append(dict(op="get", id=rng.choice(ids)))
+                ops.append(dict(op="get", id=rng.choice(ids), via=via()))
             elif r < 0.55:
-                ops.append(dict(op="get_meta", id=rng.choice(ids)))
+                ops.append(dict(op="get_meta", id=rng.choice(ids), via=via()))
             elif r < 0.65:
-                ops.append(dict(op=rng.choice(["get", "get_meta"]), id=rng.choice(["Op/never-saved", "nope", rid + "x", rid[:-1]])))
+                ops.append(dict(op=rng.choice(["get", "get_meta"]), via=via(),
+                                id=rng.choice(["Op/never-saved", "nope", rid + "x", rid[:-1]])))
             elif r < 0.80:
                 ops.append(dict(op="scribble_fetched", n=rng.randrange(100)))
             elif r < 0.90:
@@ -183,11 +209,35 @@ def gen_case(rng, tier, stream, kind):
     # a slot that was scribbled on is refilled before any later save (handled by construction: every re-save refills);
     # finally every saved id is fetched again, twice (a scribble in between), and its metadata alone
     for rid in list(dict.fromkeys(ids)):
-        ops.append(dict(op="get", id=rid))
+        ops.append(dict(op="get", id=rid, via=via()))
         ops.append(dict(op="scribble_fetched", n=len(ops)))
-        ops.append(dict(op="get", id=rid))
-        ops.append(dict(op="get_meta", id=rid))
+        ops.append(dict(op="get", id=rid, via=via()))
+        ops.append(dict(op="get_meta", id=rid, via=via()))
+    if not early:
+        for o in ops:
+            o.pop("via", None)            # the other streams: one cassette object, case format as before
     return dict(kind=kind, prefix=prefix, ops=ops, stream=stream)
+
+
+def fixed_early(kind, prefix, v):
+    """asked (full and metadata-only, through view v) before created / before saved, then saved, then fetched - through
+    the same view and through the other one; a second, hand-made recording likewise while the first is re-saved"""
+    other = "reader" if v == "writer" else "writer"
+    rid = ("Op/20200227/%032x" if kind == "s3" else "Op/%032x") % 1
+    fill0 = dict(op="fill", slot=0, reset=False, data=[["k", pv.i(1)], ["input: x", pv.lst([pv.s("a"), pv.i(2)])]],
+                 meta=[["m", pv.s("v")]])
+    fill1 = dict(op="fill", slot=1, reset=False, data=[["k2", pv.dct([("n", pv.i(3))])]], meta=[])
+    refill = dict(op="fill", slot=0, reset=True, data=[["k", pv.i(7)]], meta=[["m", pv.s("w")], ["duration", pv.i(2)]])
+    ops = [dict(op="get_meta", id=rid, via=v), dict(op="create", slot=0, cat="Op"), dict(op="get", id=rid, via=v), fill0,
+           dict(op="get_meta", id=rid, via=v), dict(op="get", id="Op/abc", via=other),
+           dict(op="save", slot=0),
+           dict(op="get", id=rid, via=v), dict(op="get_meta", id=rid, via=v), dict(op="get", id=rid, via=other),
+           dict(op="mk", slot=1, id="Op/abc"), fill1, dict(op="get_meta", id="Op/abc", via=other), refill,
+           dict(op="save", slot=0), dict(op="save", slot=1),
+           dict(op="get_meta", id="Op/abc", via=other), dict(op="get", id="Op/abc", via=other),
+           dict(op="get", id="Op/abc", via=v), dict(op="get", id=rid, via=v), dict(op="get_meta", id=rid, via=other),
+           dict(op="get", id="Op/never-saved", via=v), dict(op="get", id="Op/never-saved", via=v)]
+    return dict(kind=kind, prefix=prefix, ops=ops, stream="early")
 
 
 def generate(rng, tier):
@@ -221,6 +271,15 @@ def generate(rng, tier):
             dict(op="get", id=("Op/20200227/%032x" if k == "s3" else "Op/%032x") % 1)]))
     for i in range(6):                                  # file-path collisions of hand-made ids (observation)
         cases.append(gen_case(rng, tier, "collision", kinds[i % 3]))
+    # histories in which an id is asked for BEFORE it is saved, through the saving cassette object or a second one over
+    # the same store: deterministic probes (always run) + a random stream with its own generator (the streams above draw
+    # the same cases as before this one existed)
+    for k in kinds:
+        for prefix, v in (("", "writer"), ("a/b", "reader")):
+            cases.append(fixed_early(k, prefix, v))
+    rng_early = __import__("random").Random(rng.getrandbits(64))
+    for i in range(36 if tier == "quick" else 360):
+        cases.append(gen_case(rng_early, tier, "early", ["s3", "file", "s3", "mem"][i % 4]))
     return cases
 
 
@@ -285,7 +344,8 @@ def direct(case, obs):
     collision = case.get("stream") == "collision"
     for n, op, o, slots, expected in walk(case, obs):
         k = op["op"]
-        where = "op #%d %s on the %s cassette" % (n, k, kind)
+        where = "op #%d %s on the %s cassette%s" % (n, k, kind, " (asked through a second cassette object over the same store)"
+                                                   if op.get("via") == "reader" and kind != "mem" else "")
         if o["res"].startswith("other:") and k not in ("get", "get_meta"):
             fails.append(("unexpected-exception", "%s raised %s: %s" % (where, o["res"], o.get("msg"))))
             continue
@@ -426,8 +486,17 @@ def features(case):
     f = {"kind:" + case["kind"], "stream:" + case.get("stream", "?")}
     if case["kind"] == "s3":
         f.add("s3-prefix:" + repr(case.get("prefix", "")))
+    asked = set()
     for op in case["ops"]:
         f.add("op:" + op["op"])
+        if op["op"] in ("get", "get_meta"):
+            asked.add(op["id"])
+            if op.get("via") == "reader":
+                f.add("asked through a second cassette object")
+        if op["op"] == "mk" and op["id"] in asked:
+            f.add("id asked for before it was saved")
+        if op["op"] == "create" and any(a.startswith(op["cat"] + "/") for a in asked):
+            f.add("id asked for before it was saved")
         if op["op"] == "fill":
             if op.get("reset"):
                 f.add("re-save with new content")
@@ -476,7 +545,7 @@ def search_harder(rng, bad_cases):
 
 MANIFEST = dict(
     design_ref='6/C07',
-    text="Coq theorems for the three cassette models (in-memory ordered id->text map, file-based directory with path id = replace('/','_') + '.json', S3 full+metadata objects over the bucket model): for ANY prior store state, after save r and any later saves of other ids, get returns r's id, key set, data and metadata up to canonical dict order, and the metadata-only fetch agrees, for all key texts and all values of the serializer's faithful domain (rec_wf) whose floats carry float.__repr__ texts and whose bytes are byte lists (rec_leaves_ok); file paths are injective on created ids (collision of hand-made ids refuted with a witness); a never-saved id answers NoSuchRecording on all three; on S3 the data key '_metadata' is lost (refuted with a witness, known finding F07b). Model tied to /repo on every run by histories of create/save/re-save/get/get_metadata (and client scribbles on handed-out objects) on the real cassettes; direct predicate: fetched == saved, metadata-only fetch agrees, unknown id raises NoSuchRecording. Shared sub-objects are covered by the direct predicate only (pyval is tree shaped); one shape is a known finding (F07c).",
+    text="Coq theorems for the three cassette models (in-memory ordered id->text map, file-based directory with path id = replace('/','_') + '.json', S3 full+metadata objects over the bucket model): for ANY prior store state, after save r and any later saves of other ids, get returns r's id, key set, data and metadata up to canonical dict order, and the metadata-only fetch agrees, for all key texts and all values of the serializer's faithful domain (rec_wf) whose floats carry float.__repr__ texts and whose bytes are byte lists (rec_leaves_ok); file paths are injective on created ids (collision of hand-made ids refuted with a witness); a never-saved id answers NoSuchRecording on all three; on S3 the data key '_metadata' is lost (refuted with a witness, known finding F07b). Model tied to /repo on every run by histories of create/save/re-save/get/get_metadata (and client scribbles on handed-out objects; ids asked for before they are saved and afterwards, also through a second cassette object over the same store) on the real cassettes; direct predicate: fetched == saved, metadata-only fetch agrees, unknown id raises NoSuchRecording. Shared sub-objects are covered by the direct predicate only (pyval is tree shaped); one shape is a known finding (F07c).",
     note='Trusted: Coq kernel + vm_compute; hand-written models of jsonpickle 0.9.3 (flatten/restore) and of the three cassettes; json.loads o json.dumps = id on well-formed trees, zlib and quopri round trips are premises of the oracle-parametric theorems and theorems for the concrete parser / simple quoted-printable codec / identity zlib (C07_roundtrip_*_concrete: no oracle premise); fake bucket; scratch directory. Known findings F07b (S3 reserved key) and F07c (py/id numbering after an object state) are reported as KNOWN-FINDING.',
     technique='Coq proof (serializer round trip + store algebra) + history correspondence by vm_compute + direct fetched==saved predicate',
 )
